@@ -1,6 +1,6 @@
 """C02 - remove deletes exactly the matching points and nothing else (DESIGN 4, C02)."""
 
-from .. import observers, qast, world as W
+from .. import ladder, observers, qast, world as W
 from .base import E1Check, viol, wide_configs
 from .c01 import std_ops
 
@@ -42,7 +42,9 @@ class C02(E1Check):
         if self.tier == "quick":
             for c in cfgs:  # quick: file-backed configurations one level shallower
                 c["D"] = 4 if c["storage"] == "mem" else 3
-        return cfgs + wide_configs(("mem", "csv"), D=1 if self.tier == "quick" else 2)
+        lad = ladder.configs(self.ladder_sizes(), storages=("mem", "csv"), autos=(True,), D=2, big_depth=1 if self.tier == "quick" else None)
+        lad += ladder.configs(self.ladder_sizes()[:1], storages=("csv",), autos=(False,), D=2)
+        return cfgs + wide_configs(("mem", "csv"), D=1 if self.tier == "quick" else 2) + lad
 
     def budget(self):
         return 600 if self.tier == "quick" else 1200
@@ -67,8 +69,17 @@ class C02(E1Check):
         self._probe_set -= set(base)
         return base + [p for p in self._probes if p in self._probe_set]
 
+    def ladder_op_list(self, cfg):
+        n = cfg["ladder"]
+        base = ladder.ops(self.alpha, cfg)
+        extra = [("remove", q, m, "db") for q in self.ladder_vocab(n) for m in (None, "big")]
+        extra += [("remove", self.ladder_vocab(n)[3], None, "h:big"), ("drop", "big"), ("h_remove_all", "m")]
+        have = set(base)
+        self._ladder_probes = {e for e in extra if e not in have}
+        return base + [e for e in extra if e not in have]
+
     def is_probe(self, op):
-        return op in self._probe_set
+        return op in self._probe_set or op in getattr(self, "_ladder_probes", ())
 
     def coverage_extra(self, res):
         return {"removal_probes_per_state": len(self.probes())}
@@ -108,6 +119,9 @@ class C02(E1Check):
         if not any(op[0] in REMOVE_OPS for op in history):
             return []
         counters["states_after_removal_observed"] += 1
+        if cfg.get("ladder"):
+            out = observers.read_battery("C02", w.db, stored, cfg, self.ladder_vocab(cfg["ladder"]), counters, filters=(None, "big"), select_filters=())
+            return out + observers.getter_battery("C02", w.db, stored, cfg, counters, filters=(None, "big"), handles=False)
         out = observers.read_battery("C02", w.db, stored, cfg, self.after_vocab, counters,
                                      filters=(None, "m"), select_filters=())
         out += observers.getter_battery("C02", w.db, stored, cfg, counters, filters=(None, "m", "n"))
